@@ -115,8 +115,12 @@ def gen_case(r, pool, thorough):
     resets = [r.randrange(nchunks) for _ in range(r.choice([0, 0, 0, 1, 2]))]
     setbufs = cm.gen_setbufs(r, nchunks, mode, cap, align, [24, 25, 27, 28, 64, 200, 1024, max(sizes), max(sizes) + 3], MIN_CAP) if r.random() < 0.25 else []
     opts = r.choice([0, 1, 2, 3]) | (4 if r.random() < 0.03 else 0)
+    regs = []
+    if r.random() < 0.3:      # which callbacks are registered: none / C-style / std::function / both, changed between chunks
+        regs = [(0, r.choice([0, 1, 2, 3, 3, 3]))] + [(r.randrange(nchunks), r.randrange(4)) for _ in range(r.choice([0, 1, 2]))]
+        regs = list(dict(regs).items())
     return {'mode': mode, 'cap': cap, 'align': align, 'tokens': tokens, 'kinds': kinds, 'cuts': cuts, 'resets': resets,
-            'setbufs': setbufs, 'chunking': ch, 'capclass': capc, 'opts': opts}
+            'setbufs': setbufs, 'chunking': ch, 'capclass': capc, 'opts': opts, 'regs': regs}
 
 
 def systematic_cases(r, pool, thorough):
@@ -185,6 +189,11 @@ def systematic_cases(r, pool, thorough):
     # every payload_size that makes 24 + payload_size wrap around 2^32 (and the last ones that do not)
     for ps in range(0xFFFFFFE0, 0x100000000):
         out.append(mk('U', 64, 0, [cm.fe_message(b'', mtype=60600, psize=ps, crc=3), small], ['psize-overflow', 'valid-unknown'], capclass='64'))
+    # every combination of registered callbacks on a stream of 4 messages (one recovered by Resync), three chunkings, and changed mid-stream
+    for reg in range(4):
+        for cuts in ([], [30, 31, 90], list(range(1, len(sw) + len(small)))):
+            out.append(mk('U', 256, reg, [sw, small], ['swallow-many', 'valid-unknown'], cuts=cuts, capclass='1024', regs=[(0, reg)]))
+        out.append(mk('M', 200, 0, [small, sw, small], ['valid-unknown', 'swallow-many', 'valid-unknown'], cuts=[25, 60, 100], capclass='1024', regs=[(0, reg), (1, 3 - reg), (3, reg)]))
     # large messages and capacities (> 64 KiB, 16384 / 16383): implementation against the SPEC (the list-based model is too slow there)
     for n, capx in ([(70000, 70100), (70000, 65536), (16384 - 24, 16384), (16384 - 24, 16383)] if thorough else [(70000, 70100), (16384 - 24, 16383)]):
         m = cm.fe_message(rb(r, n), mtype=60700, seq=n & 0xFFFF)
@@ -239,7 +248,7 @@ def python_compare(ctx, cases, impl_out):
     """frames the same messages as the Python decoder configured with max_payload_len_bytes = usable capacity - 24"""
     sel = []
     for c, i in zip(cases, impl_out):
-        if c.get('resets') or c.get('setbufs') or c.get('no_model') or i.startswith('CRASH'):
+        if c.get('resets') or c.get('setbufs') or c.get('regs') or c.get('opts', 0) & 4 or c.get('no_model') or i.startswith('CRASH'):
             continue
         segs = cm.parse_out(i)
         adv = segs[0].get('adv', '').split(',')
@@ -311,7 +320,8 @@ def check_results(ctx, results, model, impl):
             if bad:
                 ctx.violation(sig_of(c, 'sanitizer-report-with-reentrant-reset'), 'sanitizer report when the callback calls Reset()', {'line': line, 'impl': i})
             continue
-        ncb = sum(len(x.get('cbs', [])) for x in ssegs)
+        ncb = sum(len(x.get('cbs') or []) for x in ssegs)
+        ctx.count('callback-registration-changes', len(c.get('regs', [])))
         ctx.count('messages-dispatched', ncb)
         if ncb == 0:
             ctx.count('case-without-messages')
@@ -340,7 +350,7 @@ def check_results(ctx, results, model, impl):
         msegs = cm.parse_out(m)
         bad = None
         for k, (a, b) in enumerate(zip(isegs, msegs)):
-            if a['kind'] == 'D' and (cm.public(a, False) != cm.public(b, False) or b.get('flag') != 'ok'):
+            if a['kind'] == 'D' and (cm.public(a, False) != cm.public(cm.blind(b, a), False) or b.get('flag') != 'ok'):
                 bad = k; break
             if a.get('adv') != b.get('adv'):
                 fa, fb = a.get('adv', '').split(','), b.get('adv', '').split(',')
@@ -352,6 +362,48 @@ def check_results(ctx, results, model, impl):
         if bad is not None or len(isegs) != len(msegs):
             ctx.broken_correspondence('FusionEngine framer model and implementation differ at operation %s' % bad, {'line': line, 'impl': i, 'model': m, 'spec': s})
     return adv_mismatch
+
+
+def huge_cases(ctx, impl):
+    """Messages around the 2^24-byte mark in a buffer larger than 16 MiB: the framer documents no limit other than its
+    capacity (the SPEC's max payload is usable capacity - 24), so a CRC-valid message of any size that fits must be
+    dispatched.  The messages are generated inside the harness (token G) and the callback reports length + CRC-32 of what it
+    saw; the expected outcome is computed here (the list-based SPEC runner would need gigabytes).  Thorough: payloads
+    2^24-24, 2^24-23, 2^24 in a managed and a user buffer; quick: the first size above the 2^24 mark."""
+    import struct, zlib
+    M = 1 << 24
+    todo = [('M', M + 1024, 0, M - 23, 1, 3)]
+    if ctx.thorough:
+        todo = [(m, M + 1024, a, pl, pieces, reg) for (m, a) in (('M', 0), ('U', 1)) for pl, pieces in ((M - 24, 1), (M - 23, 3), (M, 2))
+                for reg in ((3,) if m == 'M' else (1,))] + [('M', M + 1024, 0, M + 1001, 1, 2), ('M', M + 1024, 0, M + 1010, 1, 1)]
+    for mode, cap, al, pl, pieces, reg in todo:
+        usable = cap + 3 if mode == 'M' else cap - (4 - al) % 4
+        line = '%s %d %d K%d G%d,5,%d G9,6,1' % (mode, cap, al, reg, pl, pieces)
+        out = run_impl(impl, [line])[0]
+        ctx.case(('huge', line)); ctx.count('huge-message-cases')
+
+        def msg(n, fill):
+            pat = bytes((31 * i + fill) & 255 for i in range(256))
+            payload = (pat * (n // 256 + 1))[:n]
+            tail = struct.pack('<BBHIII', 2, 0, 60800, fill, n, 0xFFFFFFFF) + payload
+            return b'.1\x00\x00' + struct.pack('<I', zlib.crc32(tail) & 0xFFFFFFFF) + tail
+        exp = []
+        for n, fill in ((pl, 5), (9, 6)):
+            m = msg(n, fill)
+            fits = len(m) <= usable
+            body = ('H%d-%08x' % (len(m), zlib.crc32(m) & 0xFFFFFFFF)) if len(m) > (1 << 20) else m.hex()
+            exp.append((len(m) if fits else 0, [(0, body)] if fits else []))
+        if out.startswith('CRASH'):
+            ctx.violation({'framer': 'fusion-engine', 'class': 'crash', 'trigger': 'message-around-2^24-bytes', 'buffer': mode}, 'harness died: ' + out, {'line': line})
+            continue
+        segs = [x for x in cm.parse_out(out) if x['kind'] == 'D']
+        got = [(x['ret'], [(n, h) for n, h, _ in (x['cbs'] or [])]) for x in segs]
+        bad = any(x.get('flag') != 'ok' or any(pm for _, _, pm in (x['cbs'] or [])) for x in segs)
+        if got != exp or bad:
+            ctx.violation({'framer': 'fusion-engine', 'class': 'wrong-dispatch-of-huge-message', 'trigger': 'message-around-2^24-bytes', 'buffer': mode},
+                          'a CRC-valid message with a %d-byte payload in a %d-byte %s buffer: the framer returns/dispatches %s, the scan with max payload = usable capacity - 24 gives %s'
+                          % (pl, cap, 'managed' if mode == 'M' else 'user', [(r_, [b[:30] for _, b in c_]) for r_, c_ in got], [(r_, [b[:30] for _, b in c_]) for r_, c_ in exp]),
+                          {'line': line, 'impl': out[:2000], 'expected': [(r_, [b[:64] for _, b in c_]) for r_, c_ in exp]})
 
 
 def load_pool(ctx):
@@ -409,6 +461,7 @@ def run(ctx):
     if adv:
         ctx.notes.append('advisory: private state differed from the model in %d operations (not an alarm)' % adv)
     python_compare(ctx, cases, io); ctx.log('python decoder compared')
+    huge_cases(ctx, impl); ctx.log('2^24-byte messages done')
     # CRC agreement: extracted CRC model vs zlib
     import zlib
     ds = [rb(r, r.randint(0, 64)) for _ in range(200)]
@@ -425,7 +478,7 @@ def run(ctx):
                             'x capacities (0/10/23, 24..28, message size -1/0/+1/+2/+3, 64, 1024, > stream, told 2^31+5 / 2^33) x user(4 alignments, buffer at the end of an '
                             'exact-size heap block)/managed buffers x Reset() and SetBuffer() at random chunk boundaries; systematic part: payload sizes x capacity size-1/size/size+1 x 4 '
                             'alignments, capacities 20..29 x 4 alignments, all single splits of a nested-candidate stream, SYNC0 runs of length %s; '
-                            'a subset is also compared with the Python decoder. Added after the seeded-change audit: SetBuffer() between chunks on the same memory / smaller / larger / user<->managed / refused with parser state carried over (25 %% of histories, 1-3 calls), chunk boundaries at and +-1/+-2 around token ends, candidates swallowing 3-6 complete messages, >= 24 junk bytes then a stray preamble ending a call, messages larger than / equal to the capacity split at every offset, empty messages ending a call / the stream, every payload_size in 0xFFFFFFE0..0xFFFFFFFF (C07), messages and capacities > 64 KiB and 16384/16383 (implementation vs SPEC), WarnOnError on/off and std::function vs raw callback as case dimensions, callbacks that call Reset() re-entrantly (memory safety only), caller chunks at 4 start alignments ending exactly at the end of an exact-size heap block and compared bit-for-bit after the call, framer buffers pre-filled with sync-byte sentinels, callback pointers required to lie inside a buffer handed to the framer with payload == header + 24. A case is distinct by its full input line.' % ('1..60' if ctx.thorough else '1,2,21..26,40'))
+                            'a subset is also compared with the Python decoder. Added after the seeded-change audit: SetBuffer() between chunks on the same memory / smaller / larger / user<->managed / refused with parser state carried over (25 %% of histories, 1-3 calls), chunk boundaries at and +-1/+-2 around token ends, candidates swallowing 3-6 complete messages, >= 24 junk bytes then a stray preamble ending a call, messages larger than / equal to the capacity split at every offset, empty messages ending a call / the stream, every payload_size in 0xFFFFFFE0..0xFFFFFFFF (C07), messages and capacities > 64 KiB and 16384/16383 (implementation vs SPEC), WarnOnError on/off as a case dimension, every combination of registered callbacks (none / C-style / std::function / both; RTCM: none / A / replaced by B) set and changed between chunks — each registered callback must see each message once with identical arguments, with none registered the return values and counts are still judged, callbacks that call Reset() re-entrantly (memory safety only), caller chunks at 4 start alignments ending exactly at the end of an exact-size heap block and compared bit-for-bit after the call, framer buffers pre-filled with sync-byte sentinels, callback pointers required to lie inside a buffer handed to the framer with payload == header + 24. A case is distinct by its full input line.' % ('1..60' if ctx.thorough else '1,2,21..26,40'))
     ctx.coverage['exhaustive'] = False
     ctx.trusted_base += ['Coq 8.16.1 kernel + vm_compute', 'extraction (ExtrOcamlBasic only), ocaml/conv.ml + c07_driver.ml',
                          'translators/gen_fe.py, gen_c07.py (constants derived by compiling probes against the working tree and observing the framer: offsetof, CRC start, usable capacity table; harness/cpp/c07_probe.cc; the harness static_asserts the offsets)',
